@@ -77,3 +77,8 @@ def search(drv, model, diverged, lean, rng):
             msg = c.check(o)
             if msg: return c, o, "direct oracle: " + msg
     return None
+
+# L2 guard-sequence fragment (extract/gen_guards.py -> lean/Op2Model/Gen/Guards.lean; notes/l2guards.md)
+LEAN_MODULES = LEAN_MODULES + ["Op2Proofs.Props.C03_Gen"]
+PROVED = PROVED + ("; " +
+          "L2 guard fragment: C03_gen_prepareIndex_guard, C03_gen_prepareIndex_model, C03_gen_nameMax_guard (the guards of PrepareIndex / CreateArchive regenerated from the clang AST equal the model's refusals for all values of the C++ types — beside the scraped literals)")
